@@ -51,6 +51,10 @@ fn snap_text(r: &mut Option<ShmReader>) -> String {
 pub fn exec(toks: &[&str]) -> String {
     // parse
     let mut i = 1;
+    // environment modifiers, irrelevant to the protocol: `@old` = the prior file was last modified two
+    // hours ago (stores through a mapping do not refresh st_mtime), `@bin` = its name is not valid UTF-8
+    let (mut old, mut bin) = (false, false);
+    while toks[i].starts_with('@') { match toks[i] { "@old" => old = true, "@bin" => bin = true, _ => return "bad-modifier".into() } i += 1; }
     let prior = toks[i]; i += 1;
     // `valid <gen> <k>` (layout version 1) or `validv <version> <gen> <k>`
     let pv: u64 = if prior == "validv" { let v = toks[i].parse().unwrap(); i += 1; v } else { 1 };
@@ -58,7 +62,12 @@ pub fn exec(toks: &[&str]) -> String {
     let fatal: i64 = toks[i].parse().unwrap();
     let k1: u64 = toks[i + 1].parse().unwrap();
     let k2: u64 = toks[i + 2].parse().unwrap();
-    let path = format!("{}/crash-shm", scratch_dir());
+    let path: std::path::PathBuf = {
+        use std::os::unix::ffi::OsStringExt;
+        let mut b = format!("{}/crash-shm", scratch_dir()).into_bytes();
+        if bin { b.extend_from_slice(b".\xE9\xFF"); }
+        std::ffi::OsString::from_vec(b).into()
+    };
     let _ = std::fs::remove_file(&path);
     let _ = std::fs::remove_dir_all(&path);
     let header = |ver: u16, gen: u16, cells: [u64; 7]| {
@@ -76,8 +85,12 @@ pub fn exec(toks: &[&str]) -> String {
         "valid" | "validv" => std::fs::write(&path, header(pv as u16, pg as u16, rec_cells(pk))).unwrap(),
         _ => return "bad-prior".into(),
     }
+    let c = { use std::os::unix::ffi::OsStrExt; CString::new(path.as_os_str().as_bytes()).unwrap() };
+    if old && path.exists() {
+        let t = libc::timespec { tv_sec: unsafe { libc::time(std::ptr::null_mut()) } - 7200, tv_nsec: 0 };
+        unsafe { libc::utimensat(libc::AT_FDCWD, c.as_ptr(), [t, t].as_ptr(), 0); }
+    }
     let inode_before = std::fs::metadata(&path).map(|m| m.ino()).unwrap_or(0);
-    let c = CString::new(path.clone()).unwrap();
     // a reader attached before the daemon (re)starts, if the segment can be opened at all
     let mut attached: Option<ShmReader> = ShmReader::new(&c).ok();
     let _ = snap_text(&mut attached); // prime its cache the way a running client would have
@@ -86,7 +99,7 @@ pub fn exec(toks: &[&str]) -> String {
     *verif_shim::HOOKS.write().unwrap() = Some(Hooks { load: h_load, store: h_store, fence: h_fence, data_write: h_data_write, data_read: h_data_read, point: h_point });
     let p2 = path.clone();
     let _ = guarded(std::panic::AssertUnwindSafe(move || {
-        let mut w = ShmWriter::new(std::path::Path::new(&p2)).expect("new");
+        let mut w = ShmWriter::new(&p2).expect("new");
         w.write(&record_of(k1));
         event("done"); // a death after the first publication completed
     }));
@@ -98,14 +111,14 @@ pub fn exec(toks: &[&str]) -> String {
     let att1 = if len1 >= 72 { snap_text(&mut attached) } else if attached.is_some() { "sigbus-hazard".into() } else { "none".into() };
     // restart: a new writer over whatever is there, then one publication
     let p3 = path.clone();
-    let r = guarded(std::panic::AssertUnwindSafe(move || { let mut w = ShmWriter::new(std::path::Path::new(&p3)).expect("new"); w.write(&record_of(k2)); }));
+    let r = guarded(std::panic::AssertUnwindSafe(move || { let mut w = ShmWriter::new(&p3).expect("new"); w.write(&record_of(k2)); }));
     let inode_after = std::fs::metadata(&path).map(|m| m.ino()).unwrap_or(0);
     let len2 = std::fs::metadata(&path).map(|m| m.len() as i64).unwrap_or(-1);
     let mut fresh = ShmReader::new(&c).ok();
     let fresh_t = if fresh.is_some() { snap_text(&mut fresh) } else { match ShmReader::new(&c) { Err(e) => shm_err_text(&e).replace(' ', "_"), Ok(_) => "?".into() } };
     let att2 = if len2 >= 72 && len1 >= 72 { snap_text(&mut attached) } else if attached.is_some() { "sigbus-hazard".into() } else { "none".into() };
     drop(fresh); drop(attached);
-    close_leaked(&path);
+    close_leaked_os(path.as_os_str());
     // permission bits of the segment file: other users' clients must be able to read it
     let mode = std::fs::metadata(&path).map(|m| m.mode() & 0o777).unwrap_or(0);
     format!("ev {} ; crashed open:{} file:{} attached:{} ; restarted{} inode_same:{} len:{} fresh:{} attached:{} mode:{:o}",
@@ -117,6 +130,12 @@ pub fn grid() -> Vec<String> {
     let priors = ["missing", "empty", "garbage", "wiped", "valid 4 90", "valid 7 91", "valid 65534 92", "valid 65535 93", "valid 1 94", "validv 3 6 95", "validv 65535 9 96"];
     for p in priors.iter() {
         for k in 0..24 { v.push(format!("crashpt {} {} 1 2", p, k)); }
+    }
+    // the same restart over a valid segment whose file is old / whose name is not UTF-8
+    for m in ["@old", "@bin", "@old @bin"] {
+        for p in ["valid 4 90", "valid 7 91", "wiped", "missing"] {
+            for k in [0, 12, 18, 30] { v.push(format!("crashpt {} {} {} 1 2", m, p, k)); }
+        }
     }
     v
 }
